@@ -329,7 +329,7 @@ theorem revoked_from_stepdown_partial (c : Cfg) (s : LState) (op : Op) (ops : Li
     | vote t =>
       have ht : s.term < t := by simpa [adopts] using htrig
       simp only [step, hs, onVoteRequest, ht, if_true]
-      exact ⟨⟨rfl, fun x hx => by have := hlog x hx; simp only; omega⟩, by simp [NoLease, observe, isValid_revoked]⟩
+      exact ⟨⟨rfl, fun x hx => by have := hlog x hx; show x < t; omega⟩, by simp [NoLease, observe, isValid_revoked]⟩
     | ack p rt r rd =>
       simp only [step, hs]
       have key : Dead (handleAppendResult c s p rt r).1 := by
